@@ -107,6 +107,14 @@ static void strings_random(uint64_t c) {
         check_ops<C>(sa, sb, cmp3(a, b), "String-String", a, b);
         StringView<C> va(a.data(), SizeT(a.size())), vb(b.data(), SizeT(b.size()));
         check_ops<C>(va, vb, cmp3(a, b), "View-View", a, b);
+        // views into one buffer: the same start with different lengths, and overlapping tails
+        if (!b.empty()) {
+            size_t               k = r.below(unsigned(b.size()) + 1), k2 = r.below(unsigned(b.size()) + 1);
+            std::basic_string<C> pa = b.substr(0, k), pb = b.substr(0, k2), tb = b.substr(k2);
+            StringView<C>        v1(b.data(), SizeT(k)), v2(b.data(), SizeT(k2)), v3(b.data() + k2, SizeT(b.size() - k2));
+            check_ops<C>(v1, v2, cmp3(pa, pb), "View-View:same-start", pa, pb);
+            check_ops<C>(v1, v3, cmp3(pa, tb), "View-View:overlap", pa, tb);
+        }
     }
 }
 
